@@ -1,6 +1,5 @@
--- imports JsonEqual_feasibility.lean (Probe.JEq) and JsonNumberLadder_proof.lean (Probe.JEqNumSpell)
-import Probe.JEq
-import Probe.JEqNumSpell
+import JsonEqual_feasibility
+import JsonNumberLadder_proof
 /-! Ties the spelling-level number ladder `numEqS` (about which `numEqS_iff` is proved) to the text-level `numEq`
     of `JsonEqual_feasibility.lean` (which was compared with the repaired `json.Equal` on 299 986 pairs): render
     every spelling of a small grammar-complete family and compare the two verdicts on all ordered pairs. -/
